@@ -149,25 +149,6 @@ def Single.isMatch (s : Single) (a : Attr) : Option Bool :=
 def communityStr (c : Nat) : String := s!"{c / 65536}:{c % 65536}"
 def largeStr (c : Nat × Nat × Nat) : String := s!"{c.1}:{c.2.1}:{c.2.2}"
 
-/-- `ext_community_to_string`; the link-bandwidth form (0x40,0x04) prints an `f32` and is
-    excluded from well-formed cases (`wfExt`) -/
-def extStr : Bytes → Option String
-  | [t, s, b2, b3, b4, b5, b6, b7] =>
-      let pre := if s = 2 then "rt" else "soo"
-      if t = 0 ∧ (s = 2 ∨ s = 3) then
-        some s!"{pre}:{b2 * 256 + b3}:{b4 * 16777216 + b5 * 65536 + b6 * 256 + b7}"
-      else if t = 2 ∧ (s = 2 ∨ s = 3) then
-        some s!"{pre}:{b2 * 16777216 + b3 * 65536 + b4 * 256 + b5}:{b6 * 256 + b7}"
-      else if t = 1 ∧ (s = 2 ∨ s = 3) then
-        some s!"{pre}:{b2}.{b3}.{b4}.{b5}:{b6 * 256 + b7}"
-      else if t = 3 ∧ s = 12 then some s!"encap:{b6 * 256 + b7}"
-      else if t = 64 ∧ s = 4 then some s!"lb:{b2 * 256 + b3}:?"
-      else if t = 67 ∧ s = 0 then
-        (if b7 = 0 then some "validation:valid" else if b7 = 1 then some "validation:not-found"
-         else if b7 = 2 then some "validation:invalid" else none)
-      else none
-  | _ => none
-
 /-- `match_string_set` -/
 def matchStringSet (env : RegexEnv) (strs pats : List String) (o : Opt) : Bool :=
   match o with
@@ -176,24 +157,6 @@ def matchStringSet (env : RegexEnv) (strs pats : List String) (o : Opt) : Bool :
   | .invert => !(strs.any (fun s => pats.any (fun p => env.matches p s)))
 
 /-! ## `Condition::evalute` -/
-
-/-- evaluation context: the arguments of `PolicyAssignment::apply` that do not change -/
-structure Ctx where
-  src : Source
-  net : Addr
-  mask : Nat
-  rpki : Option RpkiSt
-  confed : Bool
-  localAddr : Addr
-  peerAddr : Addr
-  origNh : Option Addr
-  deriving Repr, Inhabited
-
-/-- the mutable part: `attr`, `nexthop` -/
-structure St where
-  attrs : List Attr
-  nh : Option Addr
-  deriving DecidableEq, Repr, Inhabited
 
 def cmpHolds (c : Cmp) (l v : Nat) : Bool :=
   match c with
@@ -240,7 +203,7 @@ def evalSet (env : RegexEnv) (cx : Ctx) (st : St) (k : SetKind) (o : Opt) (snap 
   | .comm, .strs pats =>
       some (matchStringSet env ((communitiesFromAttr st.attrs).map communityStr) pats o)
   | .ext, .strs pats =>
-      some (matchStringSet env ((extCommunitiesFromAttr st.attrs).filterMap extStr) pats o)
+      some (matchStringSet env ((extCommunitiesFromAttr st.attrs).filterMap env.extStr) pats o)
   | .large, .strs pats =>
       some (matchStringSet env ((largeCommunitiesFromAttr st.attrs).map largeStr) pats o)
   | _, _ => some false
